@@ -104,6 +104,20 @@ pub fn eval_node<F: FnMut(&GraphColoredVertices, &str)>(
                 let var_curr = reverse_renaming.get(var_canon).unwrap();
                 result = substitute_hctl_var(graph, &result, var_res, var_curr);
             }
+            #[cfg(hctl_verif)]
+            {
+                use crate::verif_hooks::{Event, emit};
+                let left = eval_context
+                    .duplicates
+                    .get(&canonized_formula_with_domains)
+                    .copied()
+                    .unwrap_or(0);
+                let evicted = !eval_context
+                    .cache
+                    .contains_key(&canonized_formula_with_domains);
+                emit(&Event::Hit(canonized_form.as_str(), left, evicted));
+                emit(&Event::Return(node.formula_str.as_str(), &result));
+            }
             return result;
         } else {
             // if the cache does not contain result for this subformula, set insert flag
@@ -113,6 +127,11 @@ pub fn eval_node<F: FnMut(&GraphColoredVertices, &str)>(
                 .free_var_domains
                 .iter()
                 .all(|(variable, domain)| domain.is_none() || renaming.contains_key(variable));
+            #[cfg(hctl_verif)]
+            crate::verif_hooks::emit(&crate::verif_hooks::Event::Miss(
+                canonized_form.as_str(),
+                save_to_cache,
+            ));
         }
     }
 
@@ -124,16 +143,33 @@ pub fn eval_node<F: FnMut(&GraphColoredVertices, &str)>(
     if is_attractor_pattern(&node) {
         progress_callback(&empty_set, "Evaluating attractor pattern.");
         let result = compute_attractor_states(graph, graph.unit_colored_vertices());
+        #[cfg(hctl_verif)]
+        crate::verif_hooks::emit(&crate::verif_hooks::Event::Pattern("attractor"));
         if save_to_cache {
             eval_context
                 .cache
                 .insert(canonized_formula_with_domains, (result.clone(), renaming));
+            #[cfg(hctl_verif)]
+            crate::verif_hooks::emit(&crate::verif_hooks::Event::Save(canonized_form.as_str()));
         }
+        #[cfg(hctl_verif)]
+        crate::verif_hooks::emit(&crate::verif_hooks::Event::Return(
+            node.formula_str.as_str(),
+            &result,
+        ));
         return result;
     }
     // 2) fixed-points
     if is_fixed_point_pattern(&node) {
         progress_callback(&empty_set, "Evaluating fixed-point pattern.");
+        #[cfg(hctl_verif)]
+        {
+            crate::verif_hooks::emit(&crate::verif_hooks::Event::Pattern("fixed-point"));
+            crate::verif_hooks::emit(&crate::verif_hooks::Event::Return(
+                node.formula_str.as_str(),
+                steady_states,
+            ));
+        }
         return steady_states.clone();
     }
 
@@ -227,6 +263,11 @@ pub fn eval_node<F: FnMut(&GraphColoredVertices, &str)>(
             eval_context
                 .free_var_domains
                 .insert(var.clone(), maybe_domain.clone());
+            #[cfg(hctl_verif)]
+            crate::verif_hooks::emit(&crate::verif_hooks::Event::Open(
+                var.as_str(),
+                maybe_domain.as_deref(),
+            ));
 
             // two different options depending on if the quantified variable has restricted domain or not
             let res = match maybe_domain {
@@ -258,6 +299,17 @@ pub fn eval_node<F: FnMut(&GraphColoredVertices, &str)>(
                     if var_domain.is_empty() {
                         // the variable is no longer free once we leave its quantifier
                         eval_context.free_var_domains.remove(&var);
+                        #[cfg(hctl_verif)]
+                        {
+                            use crate::verif_hooks::{Event, emit};
+                            emit(&Event::Empty(var.as_str()));
+                            emit(&Event::Close(var.as_str()));
+                            let shortcut_result = match op.clone() {
+                                HybridOp::Forall => graph.mk_unit_colored_vertices(),
+                                _ => graph.mk_empty_colored_vertices(),
+                            };
+                            emit(&Event::Return(node.formula_str.as_str(), &shortcut_result));
+                        }
                         return match op.clone() {
                             HybridOp::Bind => graph.mk_empty_colored_vertices(),
                             HybridOp::Exists => graph.mk_empty_colored_vertices(),
@@ -285,6 +337,8 @@ pub fn eval_node<F: FnMut(&GraphColoredVertices, &str)>(
 
             // remove the domain of this (no longer free) variable
             eval_context.free_var_domains.remove(&var);
+            #[cfg(hctl_verif)]
+            crate::verif_hooks::emit(&crate::verif_hooks::Event::Close(var.as_str()));
             res
         }
     };
@@ -294,7 +348,14 @@ pub fn eval_node<F: FnMut(&GraphColoredVertices, &str)>(
         eval_context
             .cache
             .insert(canonized_formula_with_domains, (result.clone(), renaming));
+        #[cfg(hctl_verif)]
+        crate::verif_hooks::emit(&crate::verif_hooks::Event::Save(canonized_form.as_str()));
     }
+    #[cfg(hctl_verif)]
+    crate::verif_hooks::emit(&crate::verif_hooks::Event::Return(
+        node.formula_str.as_str(),
+        &result,
+    ));
     result
 }
 
